@@ -6,6 +6,9 @@
 //!   `conc <disc> <k> <m> <opseed> P`       `k` threads released by a barrier, each makes `m` draws (one `TreapNode`
 //!                                          each, through `Treap::insert_at` or `TreapNode::new`) interleaved with
 //!                                          removals / split+merge on its own treap
+//!   `tie <disc> <k> <m> <opseed> P`        as `conc`, every node's public `priority` overwritten with 0..3 (ties in every merge):
+//!                                          the shapes must equal those of the same operations run alone
+//!   `deep <disc> <k> <m> <opseed> P`       as `conc` with up to 64 threads, uncapped treaps, two split+merge rotations per draw
 //!   `sched <disc> P ; m0 m1 … ; i0 i1 …`   thread `j` makes `mj` draws (the schedule is for the model: real threads
 //!                                          are scheduled by the OS)
 //!   `fsched <disc> P ; m0 m1 … ; i0 i1 …`  the same; the model runs its fine-grained system (get/set,
@@ -136,50 +139,141 @@ fn prio_at(root: &Option<Box<TreapNode<It>>>, mut pos: usize) -> Option<u32> {
     }
 }
 
-struct ThreadOut {
-    prios: Vec<u64>,
-    /// digest of everything the treap API returned: removed ids, sizes, root sums, final sequence
-    result: u64,
-    /// the same digest computed on a plain Vec
-    oracle: u64,
-    ops: [u64; 4],
+/// What a stress thread does besides drawing.
+#[derive(Clone, Copy, PartialEq, Debug)]
+enum Mode {
+    /// light: extra operations only once the treap has 64 elements (the bulk of `conc`)
+    Normal,
+    /// every kind of operation from the first draw on (`sched`, `fsched`, Miri)
+    Heavy,
+    /// every node's `priority` field is overwritten with a value in 0..4: ties in every merge; the shape must still
+    /// be the shape of the same operations run alone
+    Tie,
+    /// no size cap, two split+merge rotations after every draw: tall treaps, threads spend their time inside `split`
+    Deep,
 }
 
-/// One thread's work: `m` draws, each followed by 0..2 non-drawing operations; everything observable
-/// through the API is folded into `result`, and the same on a `Vec<u64>` into `oracle`.
-fn thread_work(tid: usize, m: usize, opseed: u64, heavy: bool) -> ThreadOut {
+struct ThreadOut {
+    prios: Vec<u64>,
+    /// digest of everything the treap API returned: removed ids, sizes, root sums, first/last, final sequences
+    result: u64,
+    /// the same digest computed on plain Vecs
+    oracle: u64,
+    /// digest of the shapes (pre-order ids and priorities through the public fields) of both treaps at the end
+    shape: u64,
+    ops: [u64; 8],
+    panic: Option<String>,
+}
+
+fn shape_into(root: &Option<Box<TreapNode<It>>>, out: &mut Vec<u64>) {
+    let mut stack: Vec<&Option<Box<TreapNode<It>>>> = vec![root];
+    while let Some(n) = stack.pop() {
+        match n {
+            None => out.push(u64::MAX),
+            Some(b) => {
+                out.push(b.item.id);
+                out.push(b.priority as u64);
+                stack.push(&b.right);
+                stack.push(&b.left);
+            }
+        }
+    }
+}
+
+/// One thread's work: `m` draws (one `TreapNode` each), each followed by non-drawing operations; everything observable
+/// through the API is folded into `result`, and the same on `Vec<u64>`s into `oracle`. Two treaps: a sequence treap
+/// (`insert_at`, `remove_at`, `split_at`, `merge`, `size`, `root`, `collect`) and a key-sorted one (`split_by`,
+/// `first`, `last`, `root_mut`, `is_empty`).
+fn thread_work(tid: usize, m: usize, opseed: u64, mode: Mode) -> ThreadOut {
+    match catch(|| thread_body(tid, m, opseed, mode)) {
+        Ok(o) => o,
+        Err(e) => ThreadOut { prios: Vec::new(), result: 0, oracle: 1, shape: 0, ops: [0; 8], panic: Some(e) },
+    }
+}
+
+fn thread_body(tid: usize, m: usize, opseed: u64, mode: Mode) -> ThreadOut {
     let mut rng = SplitMix64::new(opseed ^ (0x9E37_79B9u64.wrapping_mul(tid as u64 + 1)));
     let mut t: Treap<It> = Treap::new();
     let mut v: Vec<u64> = Vec::new();
+    let mut vsum: u64 = 0;
+    let mut s: Treap<It> = Treap::new();
+    let mut sv: Vec<u64> = Vec::new();
     let mut prios = Vec::with_capacity(m);
     let mut res: Vec<u64> = Vec::new();
     let mut orc: Vec<u64> = Vec::new();
-    let mut ops = [0u64; 4];
+    let mut ops = [0u64; 8];
+    let cap = if mode == Mode::Deep { usize::MAX } else { 256 };
     for d in 0..m {
         let id = ((tid as u64) << 32) | d as u64;
-        let pos = rng.below(v.len() as u64 + 1) as usize;
-        if rng.chance(2, 3) {
+        let kind = rng.below(6);
+        if kind < 3 && mode != Mode::Tie {
             // the usual way: the node is created inside insert_at; read its priority back from the tree
+            let pos = rng.below(v.len() as u64 + 1) as usize;
             t.insert_at(pos, It::new(id));
             prios.push(prio_at(&t.root, pos).expect("inserted node not found") as u64);
+            v.insert(pos, id);
+            vsum = vsum.wrapping_add(id);
             ops[0] += 1;
-        } else {
+        } else if kind < 5 {
             // the node is created first (public constructor), then linked in with split/merge
-            let node = TreapNode::new(It::new(id));
+            let pos = rng.below(v.len() as u64 + 1) as usize;
+            let mut node = TreapNode::new(It::new(id));
             prios.push(node.priority as u64);
+            if mode == Mode::Tie {
+                node.priority = rng.below(4) as u32 as _;
+            }
             let (l, r) = TreapNode::split_at(t.root.take(), pos);
             t.root = TreapNode::merge(TreapNode::merge(l, Some(Box::new(node))), r);
+            v.insert(pos, id);
+            vsum = vsum.wrapping_add(id);
             ops[1] += 1;
+        } else {
+            // key-sorted treap: split_by + merge
+            let key = (rng.below(1 << 30) << 24) | (d as u64 & 0xff_ffff);
+            let mut node = TreapNode::new(It::new(key));
+            prios.push(node.priority as u64);
+            if mode == Mode::Tie {
+                node.priority = rng.below(4) as u32 as _;
+            }
+            let st = std::mem::replace(&mut s, Treap::new());
+            let (a, b) = st.split_by(|it| it.id < key);
+            s = Treap::merge(Treap::merge(a, Treap { root: Some(Box::new(node)) }), b);
+            let at = sv.partition_point(|&x| x < key);
+            sv.insert(at, key);
+            ops[2] += 1;
         }
-        v.insert(pos, id);
-        if heavy || v.len() > 64 {
-            let extra = rng.below(3);
+        if mode != Mode::Normal || v.len() > 64 {
+            let extra = if mode == Mode::Deep { 2 } else { rng.below(3) };
             for _ in 0..extra {
-                if !v.is_empty() && (rng.chance(1, 2) || v.len() > 256) {
+                let what = rng.below(4);
+                if mode != Mode::Deep && !v.is_empty() && (what == 0 || v.len() > cap) {
                     let p = rng.below(v.len() as u64) as usize;
                     res.push(t.remove_at(p).id);
-                    orc.push(v.remove(p));
-                    ops[2] += 1;
+                    let x = v.remove(p);
+                    vsum = vsum.wrapping_sub(x);
+                    orc.push(x);
+                    ops[3] += 1;
+                } else if what == 3 && !sv.is_empty() {
+                    // remove a key from the sorted treap with two split_by's (or only look, in deep mode)
+                    let key = sv[rng.below(sv.len() as u64) as usize];
+                    let st = std::mem::replace(&mut s, Treap::new());
+                    let (a, bc) = st.split_by(|it| it.id < key);
+                    let (mut b, c) = bc.split_by(|it| it.id <= key);
+                    res.push(b.root().map_or(u64::MAX, |i| i.id));
+                    res.push(b.size() as u64);
+                    orc.push(key);
+                    orc.push(1);
+                    if mode == Mode::Deep || sv.len() < 32 {
+                        if let Some(r) = b.root_mut() {
+                            r.sum = r.id; // root_mut: rewrite the aggregate with the value it already has
+                        }
+                        s = Treap::merge(Treap::merge(a, b), c);
+                    } else {
+                        s = Treap::merge(a, c);
+                        let at = sv.partition_point(|&x| x < key);
+                        sv.remove(at);
+                    }
+                    ops[4] += 1;
                 } else if v.len() >= 2 {
                     // rotate: split at p, merge the halves the other way round
                     let p = rng.below(v.len() as u64 + 1) as usize;
@@ -187,18 +281,86 @@ fn thread_work(tid: usize, m: usize, opseed: u64, heavy: bool) -> ThreadOut {
                     let (a, b) = tt.split_at(p);
                     t = Treap::merge(b, a);
                     v.rotate_left(p);
-                    ops[3] += 1;
+                    ops[5] += 1;
                 }
             }
         }
         res.push(t.size() as u64);
         orc.push(v.len() as u64);
         res.push(t.root().map_or(0, |i| i.sum));
-        orc.push(v.iter().fold(0u64, |a, b| a.wrapping_add(*b)));
+        orc.push(vsum);
+        if mode != Mode::Normal || d % 16 == 0 {
+            res.push(s.first().map_or(u64::MAX, |i| i.id));
+            orc.push(sv.first().copied().unwrap_or(u64::MAX));
+            res.push(s.last().map_or(u64::MAX, |i| i.id));
+            orc.push(sv.last().copied().unwrap_or(u64::MAX));
+            res.push(s.is_empty() as u64);
+            orc.push(sv.is_empty() as u64);
+            ops[6] += 1;
+        }
     }
     res.extend(t.collect().iter().map(|i| i.id));
     orc.extend(v.iter().copied());
-    ThreadOut { prios, result: fnv(&res), oracle: fnv(&orc), ops }
+    res.extend(s.collect().iter().map(|i| i.id));
+    orc.extend(sv.iter().copied());
+    let mut sh = Vec::new();
+    shape_into(&t.root, &mut sh);
+    shape_into(&s.root, &mut sh);
+    ThreadOut { prios, result: fnv(&res), oracle: fnv(&orc), shape: fnv(&sh), ops, panic: None }
+}
+
+/// the programs on real threads released together by a barrier
+fn run_concurrently(progs: &[usize], opseed: u64, mode: Mode) -> Vec<ThreadOut> {
+    let barrier = Arc::new(Barrier::new(progs.len()));
+    let mut handles = Vec::new();
+    for (tid, &m) in progs.iter().enumerate() {
+        let b = barrier.clone();
+        handles.push(std::thread::spawn(move || {
+            b.wait();
+            thread_work(tid, m, opseed, mode)
+        }));
+    }
+    handles
+        .into_iter()
+        .map(|h| {
+            h.join().unwrap_or_else(|_| ThreadOut { prios: Vec::new(), result: 0, oracle: 1, shape: 0, ops: [0; 8], panic: Some("panic:join".into()) })
+        })
+        .collect()
+}
+
+/// the same programs run alone: one fresh thread after the other (a fresh thread, so that a thread-local generator
+/// starts at its seed exactly as it did for the concurrent thread)
+fn run_alone(progs: &[usize], opseed: u64, mode: Mode) -> Vec<ThreadOut> {
+    progs
+        .iter()
+        .enumerate()
+        .map(|(tid, &m)| {
+            std::thread::spawn(move || thread_work(tid, m, opseed, mode))
+                .join()
+                .unwrap_or_else(|_| ThreadOut { prios: Vec::new(), result: 0, oracle: 1, shape: 0, ops: [0; 8], panic: Some("panic:join".into()) })
+        })
+        .collect()
+}
+
+/// Compare the concurrent run with the Vec oracle and the run alone; `shapes`: the priorities are the same in both
+/// runs (thread-local generator, or forced priorities), so the shapes must be equal too.
+fn treap_verdict(outs: &[ThreadOut], solo: &[ThreadOut], shapes: bool) -> Option<String> {
+    for (i, o) in outs.iter().enumerate() {
+        if let Some(p) = &o.panic {
+            let alone = if solo[i].panic.is_none() { "succeeds" } else { "panics-too" };
+            return Some(format!("fail:treap-thread{}-{}-while-the-same-operations-run-alone-{}", i, p, alone));
+        }
+        if o.result != o.oracle {
+            return Some(format!("fail:treap-thread{}-differs-from-vec-oracle", i));
+        }
+        if o.result != solo[i].result {
+            return Some(format!("fail:treap-thread{}-differs-from-run-alone", i));
+        }
+        if shapes && o.shape != solo[i].shape {
+            return Some(format!("fail:treap-thread{}-shape-differs-from-run-alone-with-the-same-priorities", i));
+        }
+    }
+    None
 }
 
 /// `xs` is a subsequence of `seq`
@@ -231,7 +393,7 @@ fn reference(n: usize) {
 /// Runs in a fresh child process: real threads, then the analysis against the sequential reference
 /// stream (read from stdin); prints the `I … | V …` line.
 fn worker(line: &str) -> String {
-    let (disc, progs, opseed, p, heavy) = match parse_run_line(line) {
+    let (disc, progs, opseed, p, mode) = match parse_run_line(line) {
         Some(x) => x,
         None => return out1("INVALID"),
     };
@@ -239,25 +401,6 @@ fn worker(line: &str) -> String {
     if k == 0 || k > 64 {
         return out1("INVALID");
     }
-    let barrier = Arc::new(Barrier::new(k));
-    let mut handles = Vec::new();
-    for (tid, &m) in progs.iter().enumerate() {
-        let b = barrier.clone();
-        handles.push(std::thread::spawn(move || {
-            b.wait();
-            thread_work(tid, m, opseed, heavy)
-        }));
-    }
-    let mut outs = Vec::new();
-    for h in handles {
-        match h.join() {
-            Ok(o) => outs.push(o),
-            Err(_) => return out2("thread-panicked", "fail:thread-panicked"),
-        }
-    }
-    // the same operations run alone (one after the other, on this thread)
-    let solo: Vec<u64> = progs.iter().enumerate().map(|(tid, &m)| thread_work(tid, m, opseed, heavy).result).collect();
-
     let total: usize = progs.iter().sum();
     let _ = p; // the constants are for the model; the judge is the implementation's own sequential run
     let seq: Vec<u64> = {
@@ -268,6 +411,14 @@ fn worker(line: &str) -> String {
     };
     if seq.len() != total {
         return out2("no-sequential-reference", "fail:no-sequential-reference");
+    }
+    let outs = run_concurrently(&progs, opseed, mode);
+    let solo = run_alone(&progs, opseed, mode);
+    // a thread that panicked has no complete stream: that is the finding, not the missing draws
+    if outs.iter().any(|o| o.panic.is_some()) {
+        let v = treap_verdict(&outs, &solo, false).unwrap_or_else(|| "fail:thread-panicked".into());
+        let n = outs.iter().filter(|o| o.panic.is_some()).count();
+        return out2(&format!("panicked-threads={}/{}", n, k), &v);
     }
     let tl_ok = outs.iter().all(|o| o.prios[..] == seq[..o.prios.len()]);
     let mut union: Vec<u64> = outs.iter().flat_map(|o| o.prios.iter().copied()).collect();
@@ -333,20 +484,23 @@ fn worker(line: &str) -> String {
         format!("U {}", summ(&union))
     };
     let mut view = streams_view;
-    if view == "ok" {
-        for (i, o) in outs.iter().enumerate() {
-            if o.result != o.oracle {
-                view = format!("fail:treap-thread{}-differs-from-vec-oracle", i);
-                break;
-            }
-            if o.result != solo[i] {
-                view = format!("fail:treap-thread{}-differs-from-run-alone", i);
-                break;
-            }
+    let mut raw = raw;
+    if view != "ok" {
+        // the observation itself (the run is not reproducible): the first draws of every thread
+        let obs: Vec<String> = outs
+            .iter()
+            .enumerate()
+            .map(|(i, o)| format!("t{}={:?}", i, &o.prios[..o.prios.len().min(6)]).replace(' ', ""))
+            .collect();
+        raw = format!("{} observed:{}", raw, obs.join(";"));
+    } else {
+        let shapes = mode == Mode::Tie || disc == "threadLocal";
+        if let Some(f) = treap_verdict(&outs, &solo, shapes) {
+            view = f;
         }
     }
-    let ops = outs.iter().fold([0u64; 4], |mut a, o| {
-        for j in 0..4 {
+    let ops = outs.iter().fold([0u64; 8], |mut a, o| {
+        for j in 0..8 {
             a[j] += o.ops[j];
         }
         a
@@ -356,11 +510,11 @@ fn worker(line: &str) -> String {
 }
 
 /// `conc …` / `sched …` → (disc, programs, opseed, params, heavy ops from the first draw)
-fn parse_run_line(line: &str) -> Option<(String, Vec<usize>, u64, Params, bool)> {
+fn parse_run_line(line: &str) -> Option<(String, Vec<usize>, u64, Params, Mode)> {
     let parts: Vec<&str> = line.split(';').map(|s| s.trim()).collect();
     let ts: Vec<&str> = parts[0].split_whitespace().collect();
     match ts.first().copied() {
-        Some("conc") if parts.len() == 1 && ts.len() == 11 => {
+        Some("conc") | Some("tie") | Some("deep") if parts.len() == 1 && ts.len() == 11 => {
             let k: usize = ts[2].parse().ok()?;
             let m: usize = ts[3].parse().ok()?;
             let opseed: u64 = ts[4].parse().ok()?;
@@ -368,7 +522,12 @@ fn parse_run_line(line: &str) -> Option<(String, Vec<usize>, u64, Params, bool)>
             if k * m > 50_000_000 {
                 return None;
             }
-            Some((ts[1].to_string(), vec![m; k], opseed, p, false))
+            let mode = match ts[0] {
+                "tie" => Mode::Tie,
+                "deep" => Mode::Deep,
+                _ => Mode::Normal,
+            };
+            Some((ts[1].to_string(), vec![m; k], opseed, p, mode))
         }
         Some("sched") | Some("fsched") if parts.len() == 3 && ts.len() == 8 => {
             let p = Params::parse(&ts[2..])?;
@@ -378,7 +537,7 @@ fn parse_run_line(line: &str) -> Option<(String, Vec<usize>, u64, Params, bool)>
                 return None;
             }
             let opseed = fnv(&parts[2].split_whitespace().map(|t| t.parse().unwrap_or(0)).collect::<Vec<u64>>());
-            Some((ts[1].to_string(), progs, opseed, p, true))
+            Some((ts[1].to_string(), progs, opseed, p, Mode::Heavy))
         }
         _ => None,
     }
@@ -398,7 +557,7 @@ fn run_case(line: &str, disc: &str) -> String {
             let real: Vec<u64> = (0..n).map(|_| p.mask(rng.next_raw())).collect();
             out1(&show_stream(&real))
         }
-        Some("conc") | Some("sched") | Some("fsched") => {
+        Some("conc") | Some("tie") | Some("deep") | Some("sched") | Some("fsched") => {
             if parse_run_line(line).is_none() {
                 return out1("INVALID");
             }
@@ -465,6 +624,26 @@ fn main() {
     if argv.get(1).map(|s| s.as_str()) == Some("ref") {
         reference(argv.get(2).and_then(|s| s.parse().ok()).unwrap_or(0));
         return;
+    }
+    if argv.get(1).map(|s| s.as_str()) == Some("miri") {
+        // the program run under Miri (`cargo +nightly miri run -- miri <disc>`): two threads, every kind of treap
+        // operation the harness knows, then with forced equal priorities; compared with the same operations run alone
+        install_quiet_panic_hook();
+        let disc = argv.get(2).cloned().unwrap_or_default();
+        let mut bad = false;
+        for (mode, m) in [(Mode::Heavy, 14usize), (Mode::Tie, 12)] {
+            let progs = [m, m];
+            let outs = run_concurrently(&progs, 7, mode);
+            let solo = run_alone(&progs, 7, mode);
+            for (i, o) in outs.iter().enumerate() {
+                println!("{:?} thread {} priorities {:?} ops {:?}", mode, i, &o.prios[..o.prios.len().min(6)], o.ops);
+            }
+            if let Some(f) = treap_verdict(&outs, &solo, mode == Mode::Tie || disc == "threadLocal") {
+                println!("INTERFERENCE {:?} {}", mode, f);
+                bad = true;
+            }
+        }
+        std::process::exit(if bad { 3 } else { 0 });
     }
     if argv.get(1).map(|s| s.as_str()) == Some("worker") {
         install_quiet_panic_hook();
@@ -613,6 +792,29 @@ fn main() {
                     stats.bump(&format!("conc_k{}", k));
                     stats.add("conc_draws", (k * m) as u64);
                     stats.add("conc_threads", k as u64);
+                }
+            }
+            // (iv) interference between thread-owned treaps that does not go through the generator:
+            // `tie`  = every node's public `priority` field overwritten with 0..3 (ties in every merge), shapes compared
+            //          with the same operations run alone;
+            // `deep` = many more threads than cores, uncapped treaps, every thread inside split/merge most of the time
+            let tie_plan: Vec<(usize, usize, usize)> =
+                if thorough { vec![(2, 400, 4), (4, 400, 4), (8, 300, 4), (16, 200, 4)] } else { vec![(2, 300, 1), (4, 300, 1), (16, 150, 1)] };
+            for (k, m, reps) in tie_plan {
+                for _ in 0..reps {
+                    emit(format!("tie {} {} {} {} {}", disc, k, m, rng.next_u64() >> 1, p.show()));
+                    stats.bump("tie");
+                    stats.add("tie_draws", (k * m) as u64);
+                }
+            }
+            let deep_plan: Vec<(usize, usize, usize)> =
+                if thorough { vec![(64, 3000, 3), (48, 10_000, 1), (64, 30_000, 1)] } else { vec![(64, 3000, 1)] };
+            for (k, m, reps) in deep_plan {
+                for _ in 0..reps {
+                    emit(format!("deep {} {} {} {} {}", disc, k, m, rng.next_u64() >> 1, p.show()));
+                    stats.bump("deep");
+                    stats.add("deep_draws", (k * m) as u64);
+                    stats.add("deep_threads", k as u64);
                 }
             }
         },
